@@ -22,6 +22,13 @@ import numpy as np
 
 VALUES = [-2.0, -1.0, 0.0, 0.5, 1.0, 3.0]  # leaf alphabet (all exactly representable, dyadic)
 PAIRS = [(a, b) for a in VALUES for b in VALUES if a < b]  # 15 ordered (min, max) pairs
+# Very narrow but legal (min < max) bounds, max - min < 2e-6.  All end points are dyadic, so (max-min)/2, (min+max)/2 and
+# every product x*scale for x in VALUES / GRID are exactly representable: the float32 round trip x -> x*scale+offset ->
+# (y-offset)/scale is *exact* on them and is demanded with tolerance 0 by the running error bound (no conditioning
+# argument needed).  [2^-22, 2^-20] ~ [2.4e-7, 9.5e-7] and [-3*2^-22, 2^-23] ~ [-7.2e-7, 1.2e-7] are also well conditioned
+# for arbitrary x (max-min is ~2^21 ulps of max); [1, 1+2^-20] has max-min = 8 ulps of max, i.e. it would be ill conditioned
+# for general x, but stays exact on the half-integer alphabet (x*scale is a multiple of 2^-22, twice ulp(1) = 2^-23).
+NARROW = [(2.0 ** -22, 2.0 ** -20), (1.0, 1.0 + 2.0 ** -20), (-3 * 2.0 ** -22, 2.0 ** -23)]
 GRID = [-1.0, -0.5, 0.0, 0.5, 1.0]  # monotonicity grid of the normalised domain
 U32 = 2.0 ** -24  # unit roundoff of float32
 F32_MAX = 3.0e38
@@ -116,13 +123,16 @@ def leaf_values(kind, i, rot):
     return np.float64(VALUES[(rot + i) % 6])
 
 
-def bound_values(kind, i, j, prot):
-    """(min, max) of leaf i for the j-th Denormalize of a chain.  'vec': all 15 pairs (rotated) as a (15,) row."""
+def bound_values(kind, i, j, prot, narrow=False):
+    """(min, max) of leaf i for the j-th Denormalize of a chain.  'vec': all 15 pairs (rotated) as a (15,) row.
+    narrow: the pairs of NARROW instead (a (3,) row / rotation prot % 3)."""
+    pairs = NARROW if narrow else PAIRS
+    n = len(pairs)
     if kind == "vec":
-        idx = [(p + 4 * i + 7 * j) % 15 for p in range(15)]
-        return np.array([PAIRS[k][0] for k in idx]), np.array([PAIRS[k][1] for k in idx])
-    k = (prot + 4 * i + 7 * j) % 15
-    return np.float64(PAIRS[k][0]), np.float64(PAIRS[k][1])
+        idx = [(p + (1 if narrow else 4) * i + 7 * j) % n for p in range(n)]
+        return np.array([pairs[k][0] for k in idx]), np.array([pairs[k][1] for k in idx])
+    k = (prot + (1 if narrow else 4) * i + 7 * j) % n
+    return np.float64(pairs[k][0]), np.float64(pairs[k][1])
 
 
 def fill(shape, leaf_fn):
@@ -327,6 +337,19 @@ class RefExtend:
         return rec(self.base, t)
 
 
+class RefChain:
+    """A chain used as a member of another chain: apply first-to-last, inv last-to-first, recursively."""
+
+    def __init__(self, members):
+        self.members = members
+
+    def apply(self, t):
+        return ref_apply_chain(self.members, t)
+
+    def inv(self, t):
+        return ref_inv_chain(self.members, t)
+
+
 def ref_apply_chain(members, t):
     """t_n(...t_1(t)): first to last."""
     for m in members:
@@ -383,7 +406,56 @@ def chain_str(ch):
     def p(path):
         return ".".join(k for _, k in path) or "<root>"
 
-    return "[" + ",".join(m[0] if m[0] in "IEX" else (f"D{m[1]}" if m[0] == "D" else f"S({p(m[1])}<-{p(m[2])})") for m in ch) + "]"
+    def one(m):
+        if m[0] in "IEX":
+            return m[0]
+        if m[0] == "D":
+            return f"D{m[1]}"
+        if m[0] == "C":
+            return "Chain" + chain_str(m[1])
+        return f"S({p(m[1])}<-{p(m[2])})"
+
+    return "[" + ",".join(one(m) for m in ch) + "]"
+
+
+def member_letters(ch):
+    out = set()
+    for m in ch:
+        out.add(m[0])
+        if m[0] == "C":
+            out |= member_letters(m[1])
+    return out
+
+
+def _number_dens(ch, j=0):
+    """Number the Denormalize members in flattened order of appearance (nested chains included)."""
+    out = []
+    for m in ch:
+        if m[0] == "D":
+            out.append(["D", j])
+            j += 1
+        elif m[0] == "C":
+            inner, j = _number_dens(m[1], j)
+            out.append(["C", inner])
+        else:
+            out.append(m)
+    return out, j
+
+
+def nested_chains(shape, inner_sources):
+    """Chains that have a chain as a member (nesting depth 2, and one form of depth 3).  inner = every sequence of
+    exactly two members of the shape's alphabet (all ordered pairs, so every non-commuting pair in both orders);
+    outer forms, with m in {Identity, Exponential, Denormalize}:
+        [Chain(inner)]  [m, Chain(inner)]  [Chain(inner), m]  [Chain([m, Chain(inner)])]"""
+    alpha = [["I"], ["E"], ["D"]] + shared_members(shape, inner_sources)
+    outer = [["I"], ["E"], ["D"]]
+    out = []
+    for m1 in alpha:
+        for m2 in alpha:
+            c = ["C", [m1, m2]]
+            forms = [[c]] + [[m, c] for m in outer] + [[c, m] for m in outer] + [[["C", [m, c]]] for m in outer]
+            out += [_number_dens(f)[0] for f in forms]
+    return out
 
 
 # ------------------------------------------------------------------------------------------------
@@ -407,7 +479,7 @@ def extend_chains(n_other):
 
 
 def has_den(ch):
-    return any(m[0] == "D" for m in ch)
+    return "D" in member_letters(ch)
 
 
 def expand(task):
@@ -434,8 +506,16 @@ def expand(task):
                     if g == "bare":
                         c["bare"] = True
                     out.append(c)
+    elif g == "nested":
+        sl = task.get("slice")  # (mod, rem): leaf-to-leaf Shared sources only, every mod-th nested chain
+        for i, ch in enumerate(nested_chains(s, not sl)):
+            if sl and i % sl[0] != sl[1]:
+                continue
+            for r in rots:
+                for p in prots if has_den(ch) else prots[:1]:
+                    out.append(dict(fam="chain", shape=s, kind=kind, chain=ch, rot=r, prot=p))
     elif g == "den":
-        out = [dict(fam="den", shape=s, kind=kind, prot=p) for p in prots]
+        out = [dict(fam="den", shape=s, kind=kind, prot=p, **({"narrow": True} if task.get("narrow") else {})) for p in prots]
     elif g == "extend":
         for m in masks(s):
             for ch in extend_chains(task["n_other"]):
